@@ -198,8 +198,9 @@ def run(index, rep, tier):
                 cur = v is not None and norm(v) == "self.total_trees_counted"
                 rebuilt = False
                 if cur:
+                    # a stamp shared by several tables may only be advanced where ALL of them are rebuilt
                     fld = [f for f, (s, g, c) in DERIVED.items() if s == w.attr]
-                    rebuilt = any(w2.attr in fld and w2.kind == "store" and not is_none(w2.value) for w2 in writes_in(fi.node))
+                    rebuilt = all(any(w2.attr == f_ and w2.kind == "store" and not is_none(w2.value) for w2 in writes_in(fi.node)) for f_ in fld)
                 ok = zero or (cur and rebuilt)
                 rep.check(ok, "R05.1", fi.qualname, norm_stmt(w.stmt), fn_where(fi, w.stmt),
                           "stamp %s assigned %s in %s" % (w.attr, norm(v) if v is not None else "?", fi.name),
@@ -377,6 +378,24 @@ def run(index, rep, tier):
                                                 "self._split_distribution._get_split_frequencies()")
         rep.check(ok, "R05.5", fi.qualname, "frequency table source", fn_where(fi), "%s reads the collection's own (fresh) frequency table" % calc,
                   "%s takes split frequencies from `%s`, not from its own distribution's freshness-checked getter" % (fi.qualname, norm(sf[0].value) if sf else None))
+
+    # ---------------- R05.6 / R05.8
+    rep.rule("R05.6", "counting/summarising functions re-encode the tree before reading its bipartitions unless told not to (freshness, shared engine with R04.1)")
+    from . import c04
+    nf = c04.freshness_everywhere(index, rep, "R05.6", [TCM, "dendropy.calculate.treesum"])
+    rep.floor("R05.6", "functions using the freshness flag in the tree-collection modules", 15, nf)
+    rep.rule("R05.8", "each split of a tree is counted once: the encode call of the counting functions keeps unifurcation suppression on (two edges around an out-degree-one node carry the same split)")
+    nenc = 0
+    for q in (SD + ".count_splits_on_tree", SD + ".split_support_iter", TCM + ".SplitDistributionSummarizer.summarize_splits_on_tree", SD + ".collapse_edges_with_less_than_minimum_support"):
+        fi = index.function(q)
+        for c in calls_in(fi.node):
+            if call_name(c) in ("encode_bipartitions", "update_bipartitions"):
+                nenc += 1
+                v = get_kwarg(c, "suppress_unifurcations")
+                ok = v is None or (isinstance(v, ast.Constant) and v.value is True)
+                rep.check(ok, "R05.8", fi.qualname, "encode with suppress_unifurcations=%s" % (norm(v) if v is not None else "default"), fn_where(fi, c), "%s encodes with unifurcation suppression on" % fi.name,
+                          "%s encodes the tree with suppress_unifurcations=%s: both edges around an out-degree-one node stay in the encoding with the same split, so that split is counted twice for one tree and its frequency exceeds the fraction of trees containing it" % (fi.qualname, norm(v)))
+    rep.floor("R05.8", "encode calls in the counting functions", 4, nenc)
 
     # ---------------- R05.7
     st = index.function("dendropy.calculate.statistics.summarize")
